@@ -533,6 +533,37 @@ func c13reset(p *Prog, r *Report) {
 		detail = "Store.Reset(frame) is not called"
 	}
 	r.Check(ok, rule, "Reset:store-reset,insert-all-frame-events,then-block", p.pos(reset.Pos()), fnName(reset), "store reset, every frame event (roots included) inserted, then the block stored", detail)
+	// must-pass-through: every success return of Reset has stored the anchor block itself and reset the store from
+	// the frame — unconditionally (a condition on what the store still holds makes the outcome depend on the node's
+	// previous life: a Badger store serves pre-reset blocks from the database)
+	succ := p.succRets(reset, errNil, 0)
+	for _, spec := range []struct{ m, param, what string }{
+		{"SetBlock", "Block", "the anchor block is stored (this also re-establishes the last block index the next block is numbered from)"},
+		{"Reset", "Frame", "the store is reset from the frame"},
+	} {
+		okM, why := len(succ) > 0, ""
+		var sites []ssa.CallInstruction
+		for _, c := range callsIn(reset, storeM(spec.m)) {
+			if a := lastArg(c); a != nil && flowsFrom(a, func(v ssa.Value) bool { return isParamOfType(v, spec.param) }) {
+				sites = append(sites, c)
+			}
+		}
+		if len(sites) == 0 {
+			okM, why = false, "Reset does not pass its "+spec.param+" parameter to Store."+spec.m
+		}
+		for _, rp := range succ {
+			dom := false
+			for _, c := range sites {
+				if dominates(c, rp.ret) {
+					dom = true
+				}
+			}
+			if !dom && len(sites) > 0 {
+				okM, why = false, "a success return of Reset ("+p.ipos(rp.ret)+") can be reached without Store."+spec.m+"("+strings.ToLower(spec.param)+"): the call is conditional"
+			}
+		}
+		r.Check(okM, rule, "Reset:always-Store."+spec.m+"("+strings.ToLower(spec.param)+")", p.pos(reset.Pos()), fnName(reset), spec.what+" on every successful reset", why)
+	}
 	// the lower bound and last consensus round are set from the block's round
 	for _, m := range []string{"setLastConsensusRound", "setRoundLowerBound"} {
 		cs := callsIn(reset, named(HG+".Hashgraph."+m))
